@@ -244,7 +244,10 @@ def standard(harness, bound_of_tier, cap_of_tier=None):
     """Build the run_job / replay pair every E1 check module exports."""
     def run_job(job, tier, seed):
         cap = cap_of_tier(tier) if cap_of_tier else None
-        return explore_job(harness, job, bound=bound_of_tier(tier), cap=cap, seed=seed)
+        b = bound_of_tier(tier)
+        if b is not None and isinstance(job, tuple) and "sweep" in job:
+            b -= 1     # sweep jobs enumerate a full configuration grid (free choices) x one deviation less
+        return explore_job(harness, job, bound=b, cap=cap, seed=seed)
 
     def replay_(job, choices):
         ch, out = replay(harness, job, choices)
